@@ -200,7 +200,7 @@ def gen_sched_case(rng, transport, template, deadline):
         steps += [["cancel", k], ["await_ret", k, 2000]]
     steps += [["sleep", 40], ["probe", "after-race"]]
     f = 20
-    steps += [["call", f, 0], ["sleep", 80], ["reply", f], ["await_ret", f, 3000], ["sleep", 20], ["probe", "end"]]
+    steps += [["call", f, 0], ["await_req", f, 3000], ["reply", f], ["await_ret", f, 3000], ["sleep", 20], ["probe", "end"]]
     return {"fam": "sched", "transport": transport, "peer": "script", "steps": steps, "hook": True, "template": template,
             "deadline": deadline, "others": others, "follow": f}
 
@@ -250,6 +250,45 @@ def gen_late_exit_case(transport):
             "answered": [9, 1, 2], "expect_dials": 2}
 
 
+def gen_queued_case(rng, transport, kill):
+    """hook: Send is held with caller 0's request in hand (a write that does not return); callers 1.. are registered and
+    parked in their FIRST select, queued behind it; then the connection is lost (peer closes / resets / sends a frame with a
+    bad checksum) or Client.Abort is called: every registered caller, queued or sent, returns at once."""
+    q = rng.choice([1, 1, 2, 3])
+    tmo = rng.choice([-1, 0])
+    # a first call that completes: the connection exists and (udp) the peer knows the client's address
+    steps = [["call", 9, 0], ["await_recv", 1, 3000], ["reply", 9], ["await_ret", 9, 3000],
+             ["hold", "send", "dequeued"], ["call", 0, tmo], ["await_yield", "send", "dequeued", 3000]]
+    for k in range(1, 1 + q):
+        steps += [["call", k, tmo], ["await_yield", "k%d" % k, "before-enqueue", 3000]]
+    steps += [["sleep", 20]]
+    if kill == "abort":
+        steps += [["abort"]]
+    elif kill == "close":
+        steps += [["peer_close"]]
+    elif kill == "rst":
+        steps += [["peer_rst"]]
+    else:
+        steps += [["peer_raw", "0102030405" if transport == "udp" else BADCRC, "keep"]]
+    for k in range(0, 1 + q):
+        steps += [["await_ret", k, 1500]]
+    steps += [["probe", "queued"], ["release", "send", "dequeued"], ["sleep", 60]]
+    f = 1 + q
+    steps += [["call", f, 0], ["await_req", f, 3000], ["reply", f], ["await_ret", f, 3000], ["sleep", 20], ["probe", "end"]]
+    return {"fam": "queued", "transport": transport, "peer": "script", "steps": steps, "hook": True, "kill": kill,
+            "registered": list(range(0, 1 + q)), "follow": f}
+
+
+def kills_for(transport):
+    if transport == "udp":
+        return ["garbage", "abort"]
+    if transport == "ws":
+        return ["close", "abort"]
+    if transport == "unix":
+        return ["close", "garbage", "abort"]
+    return ["close", "rst", "garbage", "abort"]
+
+
 def gen_cases(ctx, hook):
     rng = ctx.rng
     quick = ctx.tier == "quick"
@@ -270,6 +309,10 @@ def gen_cases(ctx, hook):
     if hook:
         for t in ("tcp", "ws", "udp", "unix"):
             add(gen_late_exit_case(t))
+        for t in ("tcp", "unix", "ws", "udp"):
+            for kl in kills_for(t):
+                for _ in range(1 if quick else 3):
+                    add(gen_queued_case(rng, t, kl))
         for t in ("tcp", "ws", "udp", "unix"):
             for tpl in ("late-store", "store-before-clean", "store-before-onexit", "abort-before-store", "cancel-after-store"):
                 for dl in (False, True):
@@ -720,6 +763,24 @@ def oracle(case, obs):
                     "%s: Client.Abort with %d calls pending: %s not back 1.5 s after Abort returned (they came back only when the server, "
                     "which sleeps 3 s, answered: %s)" % (t, case["n"], ", ".join("caller %d" % k for k in late),
                                                         {k: res.get(str(k), "still pending")[:40] for k in late}))
+    # 1e. a caller registered on a connection that is lost returns at once with the connection's error, whether its request
+    #     was still queued behind another write (first select) or already sent (second select)
+    if case["fam"] == "queued":
+        for k in case["registered"]:
+            r = res_until(log, "queued").get(k)
+            where = "queued behind a blocked write (first select)" if k != case["registered"][0] else "in Send's hands (second select)"
+            if r is None:
+                return ("c10:registered-caller-not-failed-when-connection-lost",
+                        "%s (%s): caller %d, %s, had not returned 1.5 s after the connection was lost" % (t, case["kill"], k, where))
+            if case["kill"] != "abort" and not r.startswith("error"):
+                return ("c10:registered-caller-not-failed-when-connection-lost",
+                        "%s (%s): caller %d, %s, returned %r instead of the connection's error" % (t, case["kill"], k, where, r[:60]))
+    if case["fam"] == "sched" and case.get("template") in ("late-store", "store-before-clean", "store-before-onexit"):
+        r = res.get("0", "")
+        if not r.startswith("error"):
+            return ("c10:registered-caller-not-failed-when-connection-lost",
+                    "%s (%s): the caller that registered around the loss of its connection returned %r instead of the connection's error"
+                    % (t, case["template"], r[:60]))
     # 1c. the exit handler of a dead connection leaves the replacement connection pooled
     if case["fam"] == "late-exit":
         dials = sum(1 for e in log if e["e"] == "peer-accept")
@@ -787,6 +848,17 @@ def reply_seen_arriving(obs, k):
 
 def group(t):
     return {"tcp": "socket", "unix": "socket", "ws": "websocket", "udp": "udp"}.get(t, t)
+
+
+def res_until(log, probe_name):
+    """caller -> outcome, for the callers that had returned when the named probe was taken"""
+    out = {}
+    for e in log:
+        if e["e"] == "probe" and e.get("s") == probe_name:
+            break
+        if e["e"] == "call-ret":
+            out[e["k"]] = e["s"]
+    return out
 
 
 def res_at(log, probe_name):
